@@ -1,11 +1,18 @@
 //! Group "json": C22, C18, C21.
 mod web;
 mod mgen;
+mod jtree;
+mod prom;
 mod c22;
+mod c18;
 
 fn run(name: &str, ctx: &mut rvcore::Ctx) -> bool {
     match name {
-        "c22probe" => c22::probe(ctx),
+        "c22b" => c22::run_c22b(ctx),
+        "c22s" => c22::run_c22s(ctx),
+        "c22m" => c22::run_c22m(ctx),
+        "c18" => c18::run_c18(ctx),
+        "c18h" => c18::run_c18h(ctx),
         _ => return false
     }
     true
